@@ -342,4 +342,97 @@ theorem boundsIn_union (P : α → Prop) (rs : List (Range α)) (t : Option (Cla
   | range _ => simp at hs
 
 end Spec
+/-! ### `BoundsIn` from a pointwise description -/
+namespace Range
+variable {α : Type} [LinPre α]
+
+/-- every version stored in the range (bounds, cached clause) satisfies `P` -/
+def AllVers (P : α → Prop) (r : Range α) : Prop :=
+  (∀ m, r.min = some m → P m) ∧ (∀ m, r.max = some m → P m) ∧ (∀ c, r.text = some c → P c.ver)
+
+theorem preimage (P : α → Prop) (r : Range α) (h : r.AllVers P) :
+    ∃ r' : Range {v : α // P v}, r'.map (subEmb P).f = r := by
+  rcases r with ⟨m, M, i, j, t⟩
+  obtain ⟨h1, h2, h3⟩ := h
+  simp only at h1 h2 h3
+  have om : ∀ o : Option α, (∀ x, o = some x → P x) → ∃ o' : Option {v : α // P v}, o'.map Subtype.val = o := by
+    intro o ho
+    cases o with
+    | none => exact ⟨none, rfl⟩
+    | some x => exact ⟨some ⟨x, ho x rfl⟩, rfl⟩
+  have oc : ∃ t' : Option (Clause {v : α // P v}), t'.map (Clause.map Subtype.val) = t := by
+    cases t with
+    | none => exact ⟨none, rfl⟩
+    | some c => exact ⟨some ⟨c.op, ⟨c.ver, h3 c rfl⟩, c.wild⟩, rfl⟩
+  obtain ⟨m', hm⟩ := om m h1
+  obtain ⟨M', hM⟩ := om M h2
+  obtain ⟨t', ht⟩ := oc
+  exact ⟨⟨m', M', i, j, t'⟩, by simp [Range.map, subEmb, hm, hM, ht]⟩
+
+end Range
+
+namespace Spec
+variable {α : Type} [LinPre α]
+
+def AllVers (P : α → Prop) : Spec α → Prop
+  | .range r => r.AllVers P
+  | .union rs t => (∀ r ∈ rs, r.AllVers P) ∧ (∀ c, t = some c → P c.ver)
+  | _ => True
+
+theorem boundsIn_of_allVers (P : α → Prop) (s : Spec α) (h : s.AllVers P) : BoundsIn P s := by
+  cases s with
+  | empty => exact boundsIn_empty P
+  | any => exact boundsIn_any P
+  | range r =>
+    obtain ⟨r', hr⟩ := Range.preimage P r h
+    exact ⟨.range r', by simp [hr]⟩
+  | union rs t =>
+    obtain ⟨h1, h2⟩ := h
+    have hl : ∃ rs' : List (Range {v : α // P v}), rs'.map (Range.map (subEmb P).f) = rs := by
+      induction rs with
+      | nil => exact ⟨[], rfl⟩
+      | cons r rest ih =>
+        obtain ⟨r', hr⟩ := Range.preimage P r (h1 r (by simp))
+        obtain ⟨rest', hrest⟩ := ih (fun x hx => h1 x (by simp [hx]))
+        exact ⟨r' :: rest', by simp [hr, hrest]⟩
+    have ht : ∃ t' : Option (Clause {v : α // P v}), t'.map (Clause.map (subEmb P).f) = t := by
+      cases t with
+      | none => exact ⟨none, rfl⟩
+      | some c => exact ⟨some ⟨c.op, ⟨c.ver, h2 c rfl⟩, c.wild⟩, rfl⟩
+    obtain ⟨rs', hrs⟩ := hl
+    obtain ⟨t', ht'⟩ := ht
+    exact ⟨.union rs' t', by simp [hrs, ht']⟩
+
+/-- the cached clause of a specifier with `BoundsIn P` has a `P` version too -/
+theorem boundsIn_text_range (P : α → Prop) (r : Range α) (h : BoundsIn P (.range r)) : ∀ c, r.text = some c → P c.ver := by
+  obtain ⟨s', hs⟩ := h
+  cases s' with
+  | range r' =>
+    simp only [map_range, Spec.range.injEq] at hs
+    subst hs
+    intro c hc
+    simp only [Range.map, Option.map_eq_some_iff] at hc
+    obtain ⟨c', _, rfl⟩ := hc
+    exact c'.ver.2
+  | empty => simp at hs
+  | any => simp at hs
+  | union _ _ => simp at hs
+
+theorem boundsIn_text_union (P : α → Prop) (rs : List (Range α)) (t : Option (Clause α)) (h : BoundsIn P (.union rs t)) :
+    ∀ c, t = some c → P c.ver := by
+  obtain ⟨s', hs⟩ := h
+  cases s' with
+  | union rs' t' =>
+    simp only [map_union, Spec.union.injEq] at hs
+    obtain ⟨_, ht⟩ := hs
+    subst ht
+    intro c hc
+    simp only [Option.map_eq_some_iff] at hc
+    obtain ⟨c', _, rfl⟩ := hc
+    exact c'.ver.2
+  | empty => simp at hs
+  | any => simp at hs
+  | range _ => simp at hs
+
+end Spec
 end DepLogic
